@@ -31,7 +31,8 @@ Leaves(g, open, prof) ==
    \cup (IF prof.bexs THEN {Bex(m) : m \in RefTargets(g, open, prof)} ELSE {})
 
 Unary(x, prof) ==
-   (IF Repeatable(x) THEN {Rep(x, q[1], q[2], q[3]) : q \in prof.quants} ELSE {})
+   \* ({0} is only put around group-free bodies: a capture group under {0} in a wholly delegated pattern is finding F15)
+   (IF Repeatable(x) THEN {Rep(x, q[1], q[2], q[3]) : q \in {qq \in prof.quants : qq[2] # 0 \/ ~HasKind(x, {"grp"})}} ELSE {})
    \cup (IF prof.looks THEN {Look(x), NLook(x)} ELSE {})
    \cup (IF prof.lookbs /\ (LookBehindOK(x) \/ ("lbany" \in DOMAIN prof /\ prof.lbany)) THEN {LookB(x), NLookB(x)} ELSE {})
    \cup (IF prof.atomics THEN {Atom(x)} ELSE {})
@@ -113,6 +114,7 @@ Fillers == <<
    Alt(<<Cat(<<La, Lb>>), Cat(<<La, Lb, Lc>>)>>), NClass(<<"a">>), Cat(<<Lb, Star(NClass(<<"a">>))>>),
    Look(La), NLook(La), LookB(La), Rep(Grp(201, Opt(La)), 2, 2, TRUE), Keep, Cat(<<La, Keep, Lb>>),
    Alt(<<Grp(201, La), Grp(202, Lb)>>), Rep(Cat(<<La, Lb>>), 0, 1, TRUE),
+   Rep(Atom(La), 0, 0, TRUE), Rep(Cat(<<La, Look(Lb)>>), 0, 0, TRUE), Rep(Lb, 0, 0, TRUE),
    Rep(La, 1, 2, FALSE), Rep(Cat(<<La, Look(AnyC)>>), 1, 2, FALSE), Rep(Alt(<<La, Lb>>), 0, 2, FALSE), Opt(Plus(La)), Opt(Star(Cat(<<La, Lb>>)))
 >>
 
@@ -264,7 +266,7 @@ CondCtxFillPats ==
    IN { LET r == Renumber(e) IN [ast |-> r, ng |-> Len(GroupOrder(e))] : e \in W }
 
 Quants8 == {<<0, -1, TRUE>>, <<0, -1, FALSE>>, <<1, -1, TRUE>>, <<0, 1, TRUE>>, <<0, 1, FALSE>>,
-            <<1, 2, TRUE>>, <<2, 2, TRUE>>, <<2, -1, FALSE>>, <<1, 2, FALSE>>}      \* incl. a lazy BOUNDED repeat (own VM instruction RepeatNg)
+            <<1, 2, TRUE>>, <<2, 2, TRUE>>, <<2, -1, FALSE>>, <<1, 2, FALSE>>, <<0, 0, TRUE>>}      \* incl. a lazy BOUNDED repeat (own VM instruction RepeatNg)
 Quants4 == {<<0, -1, TRUE>>, <<1, -1, FALSE>>, <<0, 1, TRUE>>, <<1, 2, TRUE>>}
 
 \* C01/C02/C03 space: every construct of C01's statement; references only to groups closed earlier
